@@ -112,9 +112,11 @@ void for_each_n_schedule(
     }
     Iter lastStart = start + offset;
     Iter lastEnd = lastStart + thisChunkSize;
-    for (Iter it = lastStart; it != lastEnd; ++it) {
-      f(*it);
-    }
+    runCallerShare(tasks, [&]() {
+      for (Iter it = lastStart; it != lastEnd; ++it) {
+        f(*it);
+      }
+    });
     tasks.wait();
   }
 }
@@ -155,9 +157,11 @@ void for_each_n_schedule(
   }
 
   if (options.wait) {
-    for (Iter it = boundaries[numThreads - 1]; it != boundaries[numThreads]; ++it) {
-      f(*it);
-    }
+    runCallerShare(tasks, [&]() {
+      for (Iter it = boundaries[numThreads - 1]; it != boundaries[numThreads]; ++it) {
+        f(*it);
+      }
+    });
     tasks.wait();
   }
 }
